@@ -21,8 +21,11 @@ Qed.
 
 Lemma imports_local_b_sound : forall h t, imports_local_b h t = true -> imports_local h t.
 Proof.
-  intros h t H s c Hs Ei. unfold imports_local_b in H. rewrite forallb_forall in H.
-  specialize (H s Hs). rewrite Ei in H. apply memN_true. exact H.
+  intros h t H. unfold imports_local_b in H. rewrite forallb_forall in H. split.
+  - intros s c Hs Ei. specialize (H s Hs). apply andb_true_iff in H as [H _]. rewrite Ei in H.
+    apply memN_true. exact H.
+  - intros s m Hs Hm. specialize (H s Hs). apply andb_true_iff in H as [_ H]. rewrite forallb_forall in H.
+    apply memN_true. apply H. exact Hm.
 Qed.
 
 Lemma wf_b_sound : forall W off soff ooff n, wf_b W off soff ooff n = true -> wf W off soff ooff n.
@@ -63,9 +66,9 @@ Qed.
 Definition ref_m : node := Node 50 1 (Rebound 1) None [].
 Definition wit_world (bounds : list node) (osy : list N) (init : option node) : world :=
   mkworld
-    [ (1, {| sname := 177; styped := true; sdt := 31; sinit := None; sintf := ILocal 41 |});
-      (3, {| sname := 208; styped := true; sdt := 32; sinit := init; sintf := ILocal 42 |});
-      (4, {| sname := 160; styped := true; sdt := 33; sinit := None; sintf := ILocal 43 |}) ]
+    [ (1, {| sname := 177; styped := true; sdt := 31; sinit := None; sintf := ILocal 41; smem := [] |});
+      (3, {| sname := 208; styped := true; sdt := 32; sinit := init; sintf := ILocal 42; smem := [] |});
+      (4, {| sname := 160; styped := true; sdt := 33; sinit := None; sintf := ILocal 43; smem := [] |}) ]
     [ (31, {| obounds := []; osyms := []; opay := 1 |});
       (32, {| obounds := bounds; osyms := osy; opay := 2 |});
       (33, {| obounds := []; osyms := []; opay := 3 |});
@@ -144,22 +147,24 @@ Qed.
 
 (* ------------------------------------------------------------ non-vacuity *)
 (* module-like container with an import, an untyped symbol, mixed-case stored names (name <> key), a
+   generic interface declared BEFORE its member routine in the table (the order left by rename_symbol), a
    nested routine scope declaring a name that differs from an outer one only in case, a loop (Rebound slot on a non-Reference node) with its own inner scope, references from the
    inner scopes to outer symbols, and a reference to a symbol declared outside the subtree (9). *)
 Definition nv_world : world :=
   mkworld
-    [ (1, {| sname := 176; styped := false; sdt := 30; sinit := None; sintf := ILocal 40 |});   (* container symbol *)
-      (2, {| sname := 193; styped := false; sdt := 30; sinit := None; sintf := IImport 1 |});   (* imported *)
-      (3, {| sname := 209; styped := true; sdt := 31; sinit := Some (Node 60 2 NoSlot None []); sintf := ILocal 41 |});
-      (4, {| sname := 227; styped := true; sdt := 32; sinit := None; sintf := ILocal 42 |});    (* inner i *)
-      (5, {| sname := 210; styped := true; sdt := 31; sinit := None; sintf := ILocal 43 |});    (* inner: differs from 209 only in case *)
-      (6, {| sname := 256; styped := true; sdt := 32; sinit := None; sintf := ILocal 44 |});    (* loop-body local *)
-      (9, {| sname := 305; styped := true; sdt := 33; sinit := None; sintf := ILocal 45 |}) ]   (* outside *)
+    [ (1, {| sname := 176; styped := false; sdt := 30; sinit := None; sintf := ILocal 40; smem := [] |});   (* container symbol *)
+      (2, {| sname := 193; styped := false; sdt := 30; sinit := None; sintf := IImport 1; smem := [] |});   (* imported *)
+      (3, {| sname := 209; styped := true; sdt := 31; sinit := Some (Node 60 2 NoSlot None []); sintf := ILocal 41; smem := [] |});
+      (4, {| sname := 227; styped := true; sdt := 32; sinit := None; sintf := ILocal 42; smem := [] |});    (* inner i *)
+      (5, {| sname := 210; styped := true; sdt := 31; sinit := None; sintf := ILocal 43; smem := [] |});    (* inner: differs from 209 only in case *)
+      (6, {| sname := 256; styped := true; sdt := 32; sinit := None; sintf := ILocal 44; smem := [] |});    (* loop-body local *)
+      (7, {| sname := 272; styped := true; sdt := 32; sinit := None; sintf := ILocal 46; smem := [3] |});   (* generic interface, member 3 *)
+      (9, {| sname := 305; styped := true; sdt := 33; sinit := None; sintf := ILocal 45; smem := [] |}) ]   (* outside *)
     [ (30, dobj); (31, {| obounds := [Node 61 2 NoSlot None []; Node 62 1 (Rebound 9) None []]; osyms := [9]; opay := 2 |});
       (32, {| obounds := []; osyms := []; opay := 1 |}); (33, {| obounds := []; osyms := []; opay := 1 |});
-      (40, dobj); (41, dobj); (42, dobj); (43, dobj); (44, dobj); (45, dobj) ].
+      (40, dobj); (41, dobj); (42, dobj); (43, dobj); (44, dobj); (45, dobj); (46, dobj) ].
 Definition nv_tree : node :=
-  Node 1 100 NoSlot (Some [(176, 1); (192, 2); (208, 3)])
+  Node 1 100 NoSlot (Some [(176, 1); (192, 2); (272, 7); (208, 3)])
     [ Node 2 101 NoSlot (Some [(224, 4); (208, 5)])
         [ Node 3 102 NoSlot None [ Node 4 1 (Rebound 5) None []; Node 5 1 (Rebound 2) None [] ];
           Node 6 103 (Rebound 4) None
@@ -179,9 +184,9 @@ Qed.
 (* a valid edit sequence on the original exercising every kind of edit *)
 Definition nv_edits : list edit :=
   [ ERename 3 1233;
-    ENewSym 8 500 {| sname := 1249; styped := true; sdt := 32; sinit := None; sintf := ILocal 42 |};
+    ENewSym 8 500 {| sname := 1249; styped := true; sdt := 32; sinit := None; sintf := ILocal 42; smem := [] |};
     ESetObj 600 {| obounds := [Node 700 1 (Rebound 3) None []]; osyms := [5]; opay := 9 |};
-    ESetSym 5 {| sname := 0; styped := true; sdt := 600; sinit := Some (Node 701 1 (Rebound 4) None []); sintf := ILocal 43 |};
+    ESetSym 5 {| sname := 0; styped := true; sdt := 600; sinit := Some (Node 701 1 (Rebound 4) None []); sintf := ILocal 43; smem := [] |};
     EReplace 13 (Node 13 102 NoSlot None [ Node 800 1 (Rebound 500) None [] ]);
     EReplace 7 (Node 7 2 NoSlot None []) ].
 
@@ -191,11 +196,13 @@ Lemma nv_valid :
   let st0 := {| sw := W'; sa := nv_tree; sb := c |} in
   valid_seq nv_edits st0
   /\ write (sw (run nv_edits st0)) (sa (run nv_edits st0)) <> write W' nv_tree   (* the edits do change A *)
-  /\ refs c = [1005; 1002; 1004; 1006; 1004; 9; 1003].                          (* who got re-bound *)
+  /\ refs c = [1005; 1002; 1004; 1006; 1004; 9; 1003]                           (* who got re-bound *)
+  /\ smem (hs W' 1007) = [1003].        (* interface member re-bound although declared after the interface *)
 Proof.
-  cbv zeta. split; [|split].
+  cbv zeta. split; [|split; [|split]].
   - simpl valid_seq. repeat split; try (vm_compute; tauto); try (vm_compute; intuition discriminate).
     all: try (intros ? H; vm_compute in H; vm_compute; intuition (subst; discriminate)).
   - vm_compute. discriminate.
+  - vm_compute. reflexivity.
   - vm_compute. reflexivity.
 Qed.
